@@ -164,6 +164,24 @@ def run(n, seed):
                     findings.append({"property": "C18", "monitor": "v110_packets", "signature": {}, "seed": sd, "events": [case], "event": case,
                                      "what": "1.0.0->1.1.0 did not keep every packet with key, sequence, amount and status (+ denom, staker)"})
                 q = h.call({"op": "query", "msg": {"ibc_queue": {"start_after": None, "limit": None}}})
+                # C01 / C02 / C07 across an upgrade: what was forwarded toward the staker and is still in flight or
+                # refundable before the migration is in flight / refundable after it (the totals are untouched, so a
+                # lost record is value the reported total no longer has a location for)
+                if outcome(q) == "ok":
+                    def tally(items):
+                        t = {}
+                        for st, a in items:
+                            t[st] = t.get(st, 0) + a
+                        return t
+                    tb = tally((p["status"], int(p["amount"])) for _, p in li)
+                    ta = tally((x["status"], int(x["amount"]["amount"])) for x in q["ok"]["ibc_queue"])
+                    for st in ("sent", "ack_failure", "timed_out"):
+                        if tb.get(st, 0) != ta.get(st, 0):
+                            for prop_, mon in (("C01", "migration_keeps_forwarded"), ("C07", "migration_keeps_tracked"), ("C02", "migration_keeps_refundable")):
+                                if prop_ == "C02" and st == "sent":
+                                    continue
+                                findings.append({"property": prop_, "monitor": mon, "signature": {"status": st}, "seed": sd, "events": [case], "event": case,
+                                                 "what": "1.0.0->1.1.0: packets with status %s held %d before the migration and %d after it" % (st, tb.get(st, 0), ta.get(st, 0))})
                 if outcome(q) != "ok" or len(q["ok"]["ibc_queue"]) != len(li):
                     findings.append({"property": "C18", "monitor": "v110_readable", "signature": {}, "seed": sd, "events": [case], "event": case,
                                      "what": "IbcQueue after the migration does not show every packet: %r" % (q,)})
